@@ -98,3 +98,57 @@ Definition inner_okb (nx : nat) (x : value) (ny : nat) (y : value) (o : outcome 
   | ShapeError => negb (rectangularb nx x && rectangularb ny y && list_eqb Nat.eqb (dims nx x) (dims ny y))
   | IndexErr => false
   end.
+
+(* ---- any number of fields.  An operand is (container dimension, value). *)
+Definition operand := (nat * value)%type.
+Definition op_elements (p : operand) : list value := elements_at_depth (fst p) (snd p).
+
+(* lexicographic product of k lists, leftmost slowest *)
+Fixpoint prod_n {A} (xs : list (list A)) : list (list A) :=
+  match xs with
+  | [] => [[]]
+  | x :: r => flat_map (fun a => map (cons a) (prod_n r)) x
+  end.
+
+(* positional pairing of k >= 1 lists *)
+Fixpoint zip_n {A} (xs : list (list A)) : list (list A) :=
+  match xs with
+  | [] => []
+  | x :: r => match r with
+              | [] => map (fun a => [a]) x
+              | _ => map (fun p => fst p :: snd p) (combine x (zip_n r))
+              end
+  end.
+
+Definition outer_n_ok (ops : list operand) (o : outcome (list value)) : Prop :=
+  o = Jobs (prod_n (map op_elements ops)).
+
+Definition same_dims (ops : list operand) : Prop :=
+  forall p q, In p ops -> In q ops -> dims (fst p) (snd p) = dims (fst q) (snd q).
+
+(* either all operands have the same number of elements and every position is paired, or the run is
+   rejected for unequal shapes — which may not happen when all operands are rectangular with equal dims *)
+Definition inner_n_ok (ops : list operand) (o : outcome (list value)) : Prop :=
+  let es := map op_elements ops in
+  match o with
+  | Jobs l => (forall e e', In e es -> In e' es -> List.length e = List.length e') /\ l = zip_n es
+  | ShapeError => ~ (Forall (fun p => rectangular (fst p) (snd p)) ops /\ same_dims ops)
+  | IndexErr => False
+  end.
+
+Definition outer_n_okb (ops : list operand) (o : outcome (list value)) : bool :=
+  outcome_eqb (list_eqb value_eqb) o (Jobs (prod_n (map op_elements ops))).
+Definition inner_n_okb (ops : list operand) (o : outcome (list value)) : bool :=
+  let es := map op_elements ops in
+  match o with
+  | Jobs l => match es with
+              | [] => true
+              | e :: r => forallb (fun e' => Nat.eqb (List.length e) (List.length e')) r
+              end && list_eqb (list_eqb value_eqb) l (zip_n es)
+  | ShapeError => negb (forallb (fun p => rectangularb (fst p) (snd p)) ops &&
+                        match ops with
+                        | [] => true
+                        | p :: r => forallb (fun q => list_eqb Nat.eqb (dims (fst p) (snd p)) (dims (fst q) (snd q))) r
+                        end)
+  | IndexErr => false
+  end.
